@@ -99,7 +99,7 @@ func (w *World) queryReach() *Reach {
 }
 
 func checkC19(w *World, r *Report) {
-	r.Explanation = "Structural clause of C19: (Q-1) from Query (call graph, including go-ethereum's callbacks into the scratch StateDBWrapper) no overlay method other than tree reads is called on a live ledger, no durable-write API of tm-db/iavl/go-ethereum is reachable, no in-memory controller state is written (only the receiver of the scratch wrapper), and the scratch wrapper is built from ImmutableStateAt with the immutable account handler; (Q-2) every ledger read in a query handler is a tree read (Read / IterateReadAllItems) on the value returned by ImmutableLedgerAt(h) with h data-dependent on the request height, and vm_call's state comes from ImmutableStateAt(h) likewise; (Q-3) RigoApp.Query maps height 0 to the last committed height and its dispatch lists exactly the paths the controllers handle; (Q-4) no version of any tree is ever deleted or overwritten anywhere in the module. (Q-5) every historical read is served from a tree object of its own (a fresh iavl tree on the ledger's database, loaded at exactly the requested version, a load error is returned) under a fresh empty overlay — an iavl tree object remembers what was the latest version when it was opened, so it must not be shared between requests (C18 L-3). (Q-6) no function reachable from Query reads a controller field that block execution writes (candidate lists, validator sets, counters, the executing block context …): answers come from the immutable ledgers at the requested height, not from the in-memory state of the block that happens to be executing; the one listed exception is the last committed block context that supplies the default height. (Q-7) what a block committed is what the controllers made of the store's answers: a sentinel error that callers recognise by identity is handed back as itself (C18 L-5). (Q-8) the stake controller's `stakes` query collects its answer by one scan over all delegatee records of the requested height and by nothing else."
+	r.Explanation = "Structural clause of C19: (Q-1) from Query (call graph, including go-ethereum's callbacks into the scratch StateDBWrapper) no overlay method other than tree reads is called on a live ledger, no durable-write API of tm-db/iavl/go-ethereum is reachable, no in-memory controller state is written (only the receiver of the scratch wrapper), and the scratch wrapper is built from ImmutableStateAt with the immutable account handler; (Q-2) every ledger read in a query handler is a tree read (Read / IterateReadAllItems) on the value returned by ImmutableLedgerAt(h) with h data-dependent on the request height, and vm_call's state comes from ImmutableStateAt(h) likewise; (Q-3) RigoApp.Query maps height 0 to the last committed height and its dispatch lists exactly the paths the controllers handle; (Q-4) no version of any tree is ever deleted or overwritten anywhere in the module. (Q-5) every historical read is served from a tree object of its own (a fresh iavl tree on the ledger's database, loaded at exactly the requested version, a load error is returned) under a fresh empty overlay — an iavl tree object remembers what was the latest version when it was opened, so it must not be shared between requests (C18 L-3). (Q-6) no function reachable from Query reads a controller field that block execution writes (candidate lists, validator sets, counters, the executing block context …): answers come from the immutable ledgers at the requested height, not from the in-memory state of the block that happens to be executing; the one listed exception is the last committed block context that supplies the default height. (Q-7) what a block committed is what the controllers made of the store's answers: a sentinel error that callers recognise by identity is handed back as itself (C18 L-5). (Q-9) building the historical tree of a query and committing a version on the same database exclude each other through the finality ledger's own mutex (C18 L-7). (Q-8) the stake controller's `stakes` query collects its answer by one scan over all delegatee records of the requested height and by nothing else."
 	r.NotCovered = "the returned bytes; races with a running block (Query takes no application mutex); `stakes/voting_power` answers with the current governance limits (not in the property's list); tendermint's rpc core used by vm_call for the block time."
 
 	reach := w.queryReach()
@@ -175,6 +175,11 @@ func checkC19(w *World, r *Report) {
 		r.Check(bad == "" && nOK > 0, "Q-8", "stake.Query:stakes:whole-set", "every successful answer to `stakes` is collected by one scan over all delegatee records of the requested height, and by nothing else", "the `stakes` query does not answer from all delegatee records of the requested height (stakes committed at that height can be missing from the answer): "+bad, fnSite(w, q))
 	} else {
 		r.Undecided("Q-8", "stake.Query", "StakeCtrler.Query not found")
+	}
+	// Q-9: a query's snapshot is built while no version is being saved on the same
+	// database (C18 L-7): queries arrive on their own connection, concurrently with Commit
+	if r.importObs(w, func(t *Report) { l7(w, t) }, "L-7", "Q-9") < 2 {
+		r.Undecided("Q-9", "exclusion", "the snapshot/commit exclusion rules (C18 L-7) matched fewer than 2 constructs")
 	}
 	r.Floor("Q-1", 12, "ledger calls / scratch-wrapper writes on the query path")
 	r.Floor("Q-2", 12, "immutable-ledger reads in the query handlers")
